@@ -228,7 +228,7 @@ BASE_BUILDERS = [
     ('hybrid_mbr', b_hybrid_mbr), ('hybrid_efi_mac', b_hybrid_efi_mac), ('dup_pvd', b_dup_pvd),
     ('multisector_dir', b_multisector_dir), ('ladder', b_ladder), ('combo', b_combo)]
 # quick tier: every single fault on these (one per parser family), sector truncations on all
-QUICK_FULL = ('rr109', 'udf', 'eltorito', 'hybrid_efi_mac')
+QUICK_FULL = ('rr109', 'udf', 'eltorito', 'hybrid_efi_mac', 'deep')
 
 
 class Base(object):
